@@ -212,6 +212,17 @@ def accessors(ctx, facts, cfg):
             if st is None and en is not None and RL.norm(hcanon(en, env), p) == sf('shard_bytes') and not inc:
                 ok_cut = True
         if not ok_cut:
+            # the cut may live in a private single-expression helper of the work object (`self.shard(pos)`): read it off the
+            # payload with the helper expanded
+            def cut_in(c):
+                if isinstance(c, tuple):
+                    if len(c) == 3 and c[0] == 'struct' and str(c[1]).endswith('RangeTo') and not str(c[1]).endswith('Inclusive') \
+                            and dict(c[2]).get('end') == sf('shard_bytes'):
+                        return True
+                    return any(cut_in(y) for y in c)
+                return False
+            ok_cut = cut_in(payload)
+        if not ok_cut:
             # the cut may live in an accessor of the store that keeps the configured byte length itself (`shards.bytes(i)`):
             # `..self.shards.<size field>` where the store sets that field from shard_bytes at every resize (C04.c / C04.d)
             def find_cut(c):
